@@ -42,8 +42,8 @@ Theorem C07_smb_commands : forall c, In c SmbLayouts.all_cmds ->
 Proof. exact C07Proofs.smb_cmd_total. Qed.
 Print Assumptions C07_smb_commands.
 
-(* non-vacuity: 104 of the 115 structures are proved total today *)
-Example C07_smb_proved_count : List.length (filter SmbSafe.cmd_safe SmbLayouts.all_cmds) = 104%nat.
+(* non-vacuity: 106 of the 115 structures are proved total today *)
+Example C07_smb_proved_count : List.length (filter SmbSafe.cmd_safe SmbLayouts.all_cmds) = 106%nat.
 Proof. exact C07Proofs.smb_proved_count. Qed.
 
 (* Message.Unmarshal (header, factory dispatch, command): a panic is possible only inside the Unmarshal of
